@@ -13,7 +13,7 @@ import (
 
 func init() {
 	props["C14"] = &propDef{
-		rule: "cases = well-formed Annex B streams (1..8 emulation-free NAL units that do not end in 00, sizes 1..40 and around multiples of 8 up to 300, 3/4-byte start codes in any mix, every stream-length residue mod 8, AVC and HEVC headers of all types) run through every framing helper; plus zero-heavy arbitrary byte strings through the two start-code scanners; non-trivial = distinct stream with >= 2 NAL units, or an arbitrary string containing >= 1 start code",
+		rule: "cases = well-formed Annex B streams (1..8 emulation-free NAL units that do not end in 00, sizes 1..40 and around multiples of 8 up to 300, 3/4-byte start codes in any mix, every stream-length residue mod 8, AVC and HEVC headers of all types) run through every framing helper; plus streams with one NAL unit of 2^24-1, 2^24, 2^24+1 and above 2^25 bytes (more sizes in the thorough tier) among small units, with 4-byte start codes only and with mixed start codes, AVC and HEVC, described compactly (unit sizes + one repeated emulation-free filler block) and checked by the direct oracle only (scanner, both conversions, GetNalusFromSample, FindNaluTypes[UpToFirstVideo], ContainsNaluType); plus zero-heavy arbitrary byte strings through the two start-code scanners; non-trivial = distinct stream with >= 2 NAL units, or an arbitrary string containing >= 1 start code",
 		gen:  genC14,
 		exec: execC14,
 	}
@@ -38,6 +38,19 @@ func execC14(req string) string {
 		return ""
 	}
 	var out string
+	if f[0] == "huge" { // huge <codec> <filler block hex> <sc:type:size,...>
+		p := safe(func() {
+			if len(f) != 4 {
+				out = "bad-request"
+				return
+			}
+			out = hugeSummary(hugeCheck(f[1], f[2], f[3]))
+		})
+		if p != "" {
+			return p
+		}
+		return out
+	}
 	p := safe(func() { out = execC14Inner(f[0], f[1:]) })
 	if p != "" {
 		return p
@@ -567,6 +580,7 @@ func genC14(c *Ctx) {
 			}
 		}
 	}
+	genHugeC14(c)
 	// arbitrary zero-heavy strings through both scanners (the scanner theorem has no well-formedness hypothesis)
 	m := c.N(20000, 400000)
 	for it := 0; it < m; it++ {
@@ -608,6 +622,339 @@ func genC14(c *Ctx) {
 		c.Eval("")
 		if anyZero && r != "1" {
 			c.Fail("C14-haszerobyte", "hasZeroByte misses a zero lane", rq, r, "1")
+		}
+	}
+}
+
+// ---------- streams with a NAL unit of 16 MiB and more ("NAL units of any sizes": the 4-byte length field is used
+// beyond its low three bytes). The streams are described compactly (start-code length, type and size of every unit, one
+// filler block that is repeated inside the units) and expanded here; they are checked by the direct oracle only - the
+// list-based Lean model is not run on inputs of this size (its conversion theorems hold for every size).
+
+type hugeFinding struct{ fp, what, got, exp string }
+
+// buffers reused from stream to stream (fresh 16..64 MiB allocations cost more than the checks themselves)
+var hugeScratch [3][]byte
+
+func hugeBuf(i, n int) []byte {
+	if cap(hugeScratch[i]) < n {
+		hugeScratch[i] = make([]byte, n)
+	}
+	return hugeScratch[i][:n]
+}
+
+func hugeSummary(l []hugeFinding) string {
+	if len(l) == 0 {
+		return "ok"
+	}
+	var t []string
+	for _, x := range l {
+		t = append(t, fmt.Sprintf("%s: got %s want %s", x.fp, x.got, x.exp))
+	}
+	return strings.Join(t, "; ")
+}
+
+// digest of a byte string too long to print: length, first difference against the expectation, bytes around it
+func diffAt(got, exp []byte) (string, string) {
+	n := len(got)
+	if len(exp) < n {
+		n = len(exp)
+	}
+	i := 0
+	for i < n && got[i] == exp[i] {
+		i++
+	}
+	win := func(b []byte) string {
+		lo, hi := i-4, i+8
+		if lo < 0 {
+			lo = 0
+		}
+		if hi > len(b) {
+			hi = len(b)
+		}
+		if lo > hi {
+			lo = hi
+		}
+		return fmt.Sprintf("len=%d,first-difference-at=%d,bytes[%d:%d]=%s", len(b), i, lo, hi, hx(b[lo:hi]))
+	}
+	return win(got), win(exp)
+}
+
+func hugeCheck(codec, fillHex, desc string) (res []hugeFinding) {
+	bad := []hugeFinding{{"C14-harness", "malformed huge-unit request", "bad-request", ""}}
+	fill, err := unhx(fillHex)
+	if err != nil || len(fill) < 2 || (codec != "avc" && codec != "hevc") {
+		return bad
+	}
+	// the filler must be emulation-free also when repeated, and must not start or end with 00
+	if fill[0] == 0 || fill[len(fill)-1] == 0 || hasForbidden(fill) || bytes.Contains(fill, []byte{0, 0}) {
+		return bad
+	}
+	type udesc struct{ sc, typ, size int }
+	var ds []udesc
+	total, payload := 0, 0
+	for _, w := range strings.Split(desc, ",") {
+		x := strings.Split(w, ":")
+		if len(x) != 3 {
+			return bad
+		}
+		d := udesc{atoi(x[0]), atoi(x[1]), atoi(x[2])}
+		hl := 1
+		if codec == "hevc" {
+			hl = 2
+		}
+		if (d.sc != 3 && d.sc != 4) || d.typ < 0 || d.typ > 63 || (codec == "avc" && d.typ > 31) || d.size < hl || d.size > 1<<28 {
+			return bad
+		}
+		ds = append(ds, d)
+		total += 4 + d.size
+		payload += d.size
+	}
+	if total > 1<<29 {
+		return bad
+	}
+	var us []unit
+	units := hugeBuf(0, payload)
+	for _, d := range ds {
+		hdr := []byte{byte(0x60 | d.typ)}
+		if codec == "hevc" {
+			hdr = []byte{byte(d.typ << 1), 1}
+		}
+		n := units[:d.size:d.size]
+		units = units[d.size:]
+		copy(n, hdr)
+		for at := len(hdr); at < d.size; at += copy(n[at:], fill) {
+		}
+		if n[d.size-1] == 0 {
+			n[d.size-1] = 0x80
+		}
+		us = append(us, unit{d.sc, n})
+	}
+	add := func(fp, what, got, exp string) { res = append(res, hugeFinding{fp, what, got, exp}) }
+	guard := func(fp string, f func()) {
+		if p := safe(f); p != "" {
+			add(fp, "panic on a stream with a huge NAL unit", p, "no panic")
+		}
+	}
+	nu := len(us)
+	ab, lp := hugeBuf(1, total)[:0], hugeBuf(2, total)[:0]
+	types := make([]int, nu)
+	for i, u := range us {
+		ab = append(append(ab, []byte{0, 0, 0, 1}[4-u.sc:]...), u.nalu...)
+		lp = append(binary.BigEndian.AppendUint32(lp, uint32(len(u.nalu))), u.nalu...)
+		types[i] = typOf(codec, u.nalu)
+	}
+	// got = the units, each behind what prefix(i) gives? (compared piecewise: the expectation is not materialised)
+	framed := func(got []byte, prefix func(i int) []byte) (string, string, bool) {
+		at := 0
+		for i, u := range us {
+			for _, part := range [][]byte{prefix(i), u.nalu} {
+				if len(got)-at < len(part) || !bytes.Equal(got[at:at+len(part)], part) {
+					end := at + len(part)
+					if end > len(got) {
+						end = len(got)
+					}
+					g, e := diffAt(got[at:end], part)
+					return fmt.Sprintf("unit %d at byte %d of %d: %s", i, at, len(got), g), fmt.Sprintf("unit %d: %s", i, e), false
+				}
+				at += len(part)
+			}
+		}
+		if at != len(got) {
+			return fmt.Sprintf("%d bytes", len(got)), fmt.Sprintf("%d bytes", at), false
+		}
+		return "", "", true
+	}
+	sameList := func(l [][]byte) (string, string, bool) {
+		if len(l) != nu {
+			return fmt.Sprintf("%d units", len(l)), fmt.Sprintf("%d units", nu), false
+		}
+		for i := range l {
+			if !bytes.Equal(l[i], us[i].nalu) {
+				g, e := diffAt(l[i], us[i].nalu)
+				return fmt.Sprintf("unit %d: %s", i, g), fmt.Sprintf("unit %d: %s", i, e), false
+			}
+		}
+		return "", "", true
+	}
+	// start codes laid down = start codes found
+	guard("C14-scanner", func() {
+		var exp []string
+		pos := 0
+		for _, u := range us {
+			pos += u.sc
+			exp = append(exp, fmt.Sprintf("%d:%d", u.sc, pos))
+			pos += len(u.nalu)
+		}
+		scs, _ := avc.VerifGetStartCodePositions(ab)
+		var got []string
+		for k, x := range scs {
+			if k < 20 {
+				got = append(got, fmt.Sprintf("%d:%d", x.StartCodeLength, x.StartPos))
+			}
+		}
+		if len(scs) != nu || strings.Join(got, ",") != strings.Join(exp, ",") {
+			add("C14-scanner", "start codes found by the word-at-a-time scanner != start codes of the stream", fmt.Sprintf("%d found: %s", len(scs), strings.Join(got, ",")), strings.Join(exp, ","))
+		}
+	})
+	// walkers over the length-prefixed form
+	guard("C14-nalusfromsample", func() {
+		l, err := avc.GetNalusFromSample(lp)
+		if err != nil {
+			add("C14-nalusfromsample", "GetNalusFromSample != units", "error: "+err.Error(), fmt.Sprintf("%d units", nu))
+		} else if g, e, ok := sameList(l); !ok {
+			add("C14-nalusfromsample", "GetNalusFromSample != units", g, e)
+		}
+	})
+	var ts, tsUp []string
+	seenVideo := false
+	for _, t := range types {
+		ts = append(ts, strconv.Itoa(t))
+		if !seenVideo {
+			tsUp = append(tsUp, strconv.Itoa(t))
+		}
+		seenVideo = seenVideo || isVideo(codec, t)
+	}
+	guard("C14-types", func() {
+		if r := execC14Types(codec, false, lp); r != strings.Join(ts, ",") {
+			add("C14-types", "FindNaluTypes != types of the unit sequence", r, strings.Join(ts, ","))
+		}
+	})
+	guard("C14-types-upto", func() {
+		if r := execC14Types(codec, true, lp); r != strings.Join(tsUp, ",") {
+			add("C14-types-upto", "FindNaluTypesUpToFirstVideoNALU != types up to first video unit", r, strings.Join(tsUp, ","))
+		}
+	})
+	guard("C14-contains", func() {
+		for t := 0; t < 32; t++ {
+			e := false
+			for _, x := range types {
+				e = e || x == t
+			}
+			var r bool
+			if codec == "avc" {
+				r = avc.ContainsNaluType(lp, avc.NaluType(t))
+			} else {
+				r = hevc.ContainsNaluType(lp, hevc.NaluType(t))
+			}
+			if r != e {
+				add("C14-contains", fmt.Sprintf("ContainsNaluType(%d) disagrees with the unit sequence", t), b01(r), b01(e))
+				return
+			}
+		}
+	})
+	// Annex B -> length-prefixed (in place when every start code has 4 bytes), and length-prefixed -> Annex B; last,
+	// because the conversions may overwrite their argument
+	guard("C14-tosample", func() {
+		out := avc.ConvertByteStreamToNaluSample(ab)
+		if g, e, ok := framed(out, func(i int) []byte { return binary.BigEndian.AppendUint32(nil, uint32(len(us[i].nalu))) }); !ok {
+			add("C14-tosample", "ConvertByteStreamToNaluSample != 4-byte length-prefixed units", g, e)
+		}
+	})
+	guard("C14-tobytestream", func() {
+		out := avc.ConvertSampleToByteStream(lp)
+		if g, e, ok := framed(out, func(int) []byte { return []byte{0, 0, 0, 1} }); !ok {
+			add("C14-tobytestream", "ConvertSampleToByteStream != units behind 4-byte start codes", g, e)
+		}
+	})
+	return res
+}
+
+func execC14Types(codec string, upTo bool, lp []byte) string {
+	var ts []string
+	if codec == "avc" {
+		l := avc.FindNaluTypes(lp)
+		if upTo {
+			l = avc.FindNaluTypesUpToFirstVideoNALU(lp)
+		}
+		for _, t := range l {
+			ts = append(ts, strconv.Itoa(int(t)))
+		}
+	} else {
+		l := hevc.FindNaluTypes(lp)
+		if upTo {
+			l = hevc.FindNaluTypesUpToFirstVideoNalu(lp)
+		}
+		for _, t := range l {
+			ts = append(ts, strconv.Itoa(int(t)))
+		}
+	}
+	return strings.Join(ts, ",")
+}
+
+// genHugeC14: a few streams with one NAL unit whose size sits at the boundaries of the length field's bytes (2^24 -1/+0/+1,
+// above 2^25; more in the thorough tier) among small units, once with 4-byte start codes only (in-place conversion) and
+// once with mixed start codes (copying conversion); AVC and HEVC alternate.
+func genHugeC14(c *Ctx) {
+	r := c.R
+	sizes := []int{1<<24 - 1, 1 << 24, 1<<24 + 1, 1<<25 + 1 + r.Intn(4096)}
+	if c.Thorough() {
+		sizes = append(sizes, 1<<24-2, 1<<24+5, 1<<24+256, 1<<24+65536, 1<<25-1, 1<<25, 3<<24+0x010203, 1<<26+r.Intn(1<<16))
+	}
+	// filler: emulation-free when repeated (no 00 00, no 00 at either end); 257 bytes (odd, so that its single zero
+	// bytes meet every position of the machine words)
+	fill := make([]byte, 257)
+	for i := range fill {
+		fill[i] = byte(r.Intn(256))
+		if r.Intn(6) == 0 {
+			fill[i] = 0
+		}
+		if fill[i] == 0 && (i == 0 || i == len(fill)-1 || fill[i-1] == 0) {
+			fill[i] = byte(1 + r.Intn(255))
+		}
+	}
+	small := func(codec string) string {
+		var typ int
+		if codec == "avc" {
+			typ = []int{7, 8, 6, 9, 1, 5}[r.Intn(6)]
+		} else {
+			typ = []int{32, 33, 34, 35, 39, 1, 19}[r.Intn(7)]
+		}
+		return fmt.Sprintf("%d:%d", typ, 2+r.Intn(40))
+	}
+	k := 0
+	for _, size := range sizes {
+		for _, mixed := range []bool{false, true} {
+			codec := []string{"avc", "hevc"}[k%2]
+			k++
+			before, after := r.Intn(4), r.Intn(3)
+			bigTyp := []int{5, 1}[r.Intn(2)]
+			if codec == "hevc" {
+				bigTyp = []int{19, 1, 20}[r.Intn(3)]
+			}
+			var ds []string
+			for i := 0; i < before; i++ {
+				ds = append(ds, small(codec))
+			}
+			ds = append(ds, fmt.Sprintf("%d:%d", bigTyp, size))
+			for i := 0; i < after; i++ {
+				ds = append(ds, small(codec))
+			}
+			short := -1 // with mixed start codes at least one has 3 bytes
+			if mixed {
+				short = r.Intn(len(ds))
+			}
+			for i := range ds {
+				sc := 4
+				if mixed && (i == short || r.Intn(2) == 0) {
+					sc = 3
+				}
+				ds[i] = fmt.Sprintf("%d:%s", sc, ds[i])
+			}
+			req := fmt.Sprintf("huge %s %s %s", codec, hx(fill), strings.Join(ds, ","))
+			c.Eval(req)
+			c.Count(fmt.Sprintf("huge-unit stream: mixed start codes=%v", mixed))
+			if !mixed && size == 1<<24 {
+				c.Sample(req)
+			}
+			var res []hugeFinding
+			if p := safe(func() { res = hugeCheck(codec, hx(fill), strings.Join(ds, ",")) }); p != "" {
+				c.Fail("C14-panic", "panic: "+p, req, p, "")
+			}
+			all := hugeSummary(res)
+			for _, x := range res {
+				c.Fail(x.fp, x.what+" (stream with a NAL unit of "+strconv.Itoa(size)+" bytes)", req, all, "ok")
+			}
 		}
 	}
 }
